@@ -262,3 +262,31 @@ Theorem reversing_in_place_refuted :
   serve_n (serve_reversing true None) (indexed [Pass; Pass]) 3 =
   [[EMw 0; EMw 1; EHandler]; [EMw 1; EMw 0; EHandler]; [EMw 0; EMw 1; EHandler]].
 Proof. vm_compute. reflexivity. Qed.
+
+(** * gin: writing to the response is not short-circuiting *)
+Lemma gin_loop_is_seq_loop : forall ms w inner,
+  gin_loop template_stop ms w inner = seq_loop EMw (map (fun m => (fst m, erase (snd m))) ms) inner.
+Proof.
+  induction ms as [|[i m] r IH]; intros w inner; cbn [gin_loop seq_loop map fst snd]; [reflexivity|].
+  unfold template_stop. destruct m; cbn [aborts erase]; try rewrite IH; reflexivity.
+Qed.
+
+Lemma gin_writers_reach_the_handler : forall ms w,
+  (forall m, In m ms -> snd m <> GAbort) ->
+  gin_loop template_stop ms w [EHandler] = map (fun m => EMw (fst m)) ms ++ [EHandler].
+Proof.
+  induction ms as [|[i m] r IH]; intros w H; cbn [gin_loop map app fst snd]; [reflexivity|].
+  unfold template_stop. destruct m; cbn [aborts].
+  - rewrite IH; [reflexivity|]. intros m Hm. apply H. right. exact Hm.
+  - exfalso. apply (H (i, GAbort)); [left; reflexivity|reflexivity].
+  - rewrite IH; [reflexivity|]. intros m Hm. apply H. right. exact Hm.
+Qed.
+
+Lemma stop_when_written_refuted :
+  exists ms, (forall m, In m ms -> snd m <> GAbort)
+             /\ gin_loop stop_when_written ms false [EHandler] <> map (fun m => EMw (fst m)) ms ++ [EHandler].
+Proof.
+  exists [(0, GPass); (1, GWrite); (2, GPass)]. split.
+  - intros m [H|[H|[H|[]]]]; subst m; discriminate.
+  - vm_compute. discriminate.
+Qed.
